@@ -254,7 +254,10 @@ func (c *Ctx) keyMutexSources(fn *ssa.Function, v ssa.Value, keyP *ssa.Parameter
 		}
 	}
 	// all Stores into the map store *sync.Mutex values under the key parameter
-	for _, ci := range Calls(fn, func(ci ssa.CallInstruction) bool { op, ok := isSyncMapOp(ci); return ok && (op == "Store" || op == "Delete" || op == "Clear" || op == "Swap" || op == "CompareAndSwap" || op == "CompareAndDelete" || op == "LoadAndDelete") }) {
+	for _, ci := range Calls(fn, func(ci ssa.CallInstruction) bool {
+		op, ok := isSyncMapOp(ci)
+		return ok && (op == "Store" || op == "Delete" || op == "Clear" || op == "Swap" || op == "CompareAndSwap" || op == "CompareAndDelete" || op == "LoadAndDelete")
+	}) {
 		op, _ := isSyncMapOp(ci)
 		if op != "Store" {
 			return false, "the key-mutex map is modified by " + op
@@ -270,7 +273,10 @@ func (c *Ctx) keyMutexSources(fn *ssa.Function, v ssa.Value, keyP *ssa.Parameter
 		if other == fn || prog.PkgPathOf(other) != prog.PkgPathOf(fn) {
 			continue
 		}
-		for _, ci := range Calls(other, func(ci ssa.CallInstruction) bool { op, ok := isSyncMapOp(ci); return ok && op != "Load" && op != "Range" }) {
+		for _, ci := range Calls(other, func(ci ssa.CallInstruction) bool {
+			op, ok := isSyncMapOp(ci)
+			return ok && op != "Load" && op != "Range"
+		}) {
 			_ = T
 			return false, "the key-mutex map is also modified in " + Fn(other) + " at " + c.Pos(ci)
 		}
